@@ -7,6 +7,9 @@
    manager looked at it stayed in pending_work_items; the manager had already consumed the shutdown wake-up, dropped the cancelled
    item on its next round and went back to sleep for ever.  Whether the manager re-reads the work ids before deciding to wait again
    is read off the source (Gen/Ledger.v: manager_rechecks_work_ids_when_shutting_down).
+   With kill_workers=True the manager fails and drops every pending item; whether it also forgets the work ids still waiting is a
+   generated fact (forced_shutdown_forgets_the_waiting_work_ids): if it does not, the re-check above looks up an id whose item is gone
+   and the thread dies of KeyError -- a regression the first version of the H11 repair introduced (caught by C20's thorough tier).
    Counters only: items of pending_work_items whose id is not published yet, published and still pending / cancelled, dispatched,
    finished but not yet processed.  Definitions only; proofs in Proofs/WakeThm.v. *)
 From Coq Require Import List Arith Bool.
@@ -19,7 +22,8 @@ Inductive mph :=
 | MWoken        (* woken: about to clear the wake-up pipe *)
 | MProcess      (* about to process the result it read, if any *)
 | MCheck        (* about to test is_shutting_down() *)
-| MExit.        (* join_executor_internals(); the thread ends *)
+| MExit         (* join_executor_internals(); the thread ends *)
+| MCrashed.     (* add_call_item_to_queue() looked up a work id whose item is gone: KeyError, the thread dies without cleaning up *)
 
 Record ws := mkw {
   nt : nat;                     (* items registered in pending_work_items whose id is not in work_ids yet *)
@@ -31,9 +35,11 @@ Record ws := mkw {
   have : bool;                  (* the manager holds a result it has read *)
   shut : bool;
   ph : mph;
-  sub : list sop                (* the submit() in progress (under the shutdown lock): what is left of its body *)
+  sub : list sop;               (* the submit() in progress (under the shutdown lock): what is left of its body *)
+  kill : bool;                  (* shutdown(kill_workers=True) was asked *)
+  stale : nat                   (* ids waiting in work_ids whose work item has been dropped *)
 }.
-Definition ws0 : ws := mkw 0 0 0 0 0 0 0 false false MAdd [].
+Definition ws0 : ws := mkw 0 0 0 0 0 0 0 false false MAdd [] false 0.
 Definition in_table (s : ws) : nat := nt s + np s + nc s + nr s + nd s.      (* len(pending_work_items) *)
 
 (* the statements of submit() that matter here, in source order *)
@@ -45,13 +51,14 @@ Inductive ev :=
 | SubStep               (* its next statement *)
 | Cancel                (* Future.cancel() on a future that is still pending and published *)
 | Shutdown              (* flag (under the shutdown lock); wakeup() *)
+| ShutdownKill          (* the same with kill_workers=True *)
 | Finish                (* a worker finishes a dispatched item: its result becomes readable *)
 | Mgr.                  (* the manager's next step *)
 
 Definition upd_sub (s : ws) (nt' np' wake' : nat) (l : list sop) : ws :=
-  mkw nt' np' (nc s) (nr s) (nd s) wake' (results s) (have s) (shut s) (ph s) l.
+  mkw nt' np' (nc s) (nr s) (nd s) wake' (results s) (have s) (shut s) (ph s) l (kill s) (stale s).
 
-Definition step_with (rechecks : bool) (ops : list sop) (s : ws) (e : ev) : ws :=
+Definition step_with (rechecks drains : bool) (ops : list sop) (s : ws) (e : ev) : ws :=
   match e with
   | SubmitBegin => match sub s with
                    | [] => if shut s then s else upd_sub s (nt s) (np s) (wake s) ops
@@ -63,35 +70,52 @@ Definition step_with (rechecks : bool) (ops : list sop) (s : ws) (e : ev) : ws :
                | _ :: r => upd_sub s (nt s) (np s) (wake s) r
                | [] => s end
   | Cancel => match np s with
-              | S n => mkw (nt s) n (S (nc s)) (nr s) (nd s) (wake s) (results s) (have s) (shut s) (ph s) (sub s)
+              | S n => mkw (nt s) n (S (nc s)) (nr s) (nd s) (wake s) (results s) (have s) (shut s) (ph s) (sub s) (kill s) (stale s)
               | 0 => s end
   | Shutdown => match sub s with
-                | [] => mkw (nt s) (np s) (nc s) (nr s) (nd s) (S (wake s)) (results s) (have s) true (ph s) []
+                | [] => mkw (nt s) (np s) (nc s) (nr s) (nd s) (S (wake s)) (results s) (have s) true (ph s) [] (kill s) (stale s)
                 | _ => s end                       (* the flag is set under the lock submit() holds *)
+  | ShutdownKill => match sub s with
+                    | [] => mkw (nt s) (np s) (nc s) (nr s) (nd s) (S (wake s)) (results s) (have s) true (ph s) [] true (stale s)
+                    | _ => s end
   | Finish => match nr s with
-              | S n => mkw (nt s) (np s) (nc s) n (S (nd s)) (wake s) (S (results s)) (have s) (shut s) (ph s) (sub s)
+              | S n => mkw (nt s) (np s) (nc s) n (S (nd s)) (wake s) (S (results s)) (have s) (shut s) (ph s) (sub s) (kill s) (stale s)
               | 0 => s end
   | Mgr =>
       match ph s with
       | MAdd =>      (* every published work id is looked at: a cancelled item is dropped, a pending one is dispatched *)
-          mkw (nt s) 0 0 (nr s + np s) (nd s) (wake s) (results s) (have s) (shut s) MWait (sub s)
+          if negb (Nat.eqb (stale s) 0)
+          then mkw (nt s) (np s) (nc s) (nr s) (nd s) (wake s) (results s) (have s) (shut s) MCrashed (sub s) (kill s) (stale s) else
+          mkw (nt s) 0 0 (nr s + np s) (nd s) (wake s) (results s) (have s) (shut s) MWait (sub s) (kill s) (stale s)
       | MWait => if Nat.eqb (wake s + results s) 0 then s        (* blocked *)
                  else match results s with
-                      | S r => mkw (nt s) (np s) (nc s) (nr s) (nd s) (wake s) r true (shut s) MWoken (sub s)
-                      | 0 => mkw (nt s) (np s) (nc s) (nr s) (nd s) (wake s) 0 false (shut s) MWoken (sub s) end
-      | MWoken => mkw (nt s) (np s) (nc s) (nr s) (nd s) 0 (results s) (have s) (shut s) MProcess (sub s)           (* thread_wakeup.clear() *)
-      | MProcess => mkw (nt s) (np s) (nc s) (nr s) (if have s then pred (nd s) else nd s) (wake s) (results s) false (shut s) MCheck (sub s)
+                      | S r => mkw (nt s) (np s) (nc s) (nr s) (nd s) (wake s) r true (shut s) MWoken (sub s) (kill s) (stale s)
+                      | 0 => mkw (nt s) (np s) (nc s) (nr s) (nd s) (wake s) 0 false (shut s) MWoken (sub s) (kill s) (stale s) end
+      | MWoken => mkw (nt s) (np s) (nc s) (nr s) (nd s) 0 (results s) (have s) (shut s) MProcess (sub s) (kill s) (stale s)           (* thread_wakeup.clear() *)
+      | MProcess => mkw (nt s) (np s) (nc s) (nr s) (if have s then pred (nd s) else nd s) (wake s) (results s) false (shut s) MCheck (sub s) (kill s) (stale s)
       | MCheck =>
           if shut s then
-            let s1 := if rechecks then mkw (nt s) 0 0 (nr s + np s) (nd s) (wake s) (results s) (have s) (shut s) (ph s) (sub s) else s in
+            (* flag_executor_shutting_down(): with kill_workers every item of pending_work_items is failed and dropped; the ids still
+               waiting in work_ids are forgotten too when the source says so, otherwise they stay behind *)
+            let s0 := if kill s
+                      then mkw 0 0 0 0 0 (wake s) (results s) (have s) (shut s) (ph s) (sub s) (kill s)
+                               (if drains then 0 else stale s + np s + nc s)
+                      else s in
+            (* add_call_item_to_queue() once more (rechecks): a stale id makes it raise KeyError *)
+            if rechecks && negb (Nat.eqb (stale s0) 0)
+            then mkw (nt s0) (np s0) (nc s0) (nr s0) (nd s0) (wake s0) (results s0) (have s0) (shut s0) MCrashed (sub s0) (kill s0) (stale s0)
+            else
+            let s1 := if rechecks then mkw (nt s0) 0 0 (nr s0 + np s0) (nd s0) (wake s0) (results s0) (have s0) (shut s0) (ph s0) (sub s0) (kill s0) (stale s0)
+                      else s0 in
             if Nat.eqb (in_table s1) 0
-            then mkw (nt s1) (np s1) (nc s1) (nr s1) (nd s1) (wake s1) (results s1) (have s1) (shut s1) MExit (sub s1)
-            else mkw (nt s1) (np s1) (nc s1) (nr s1) (nd s1) (wake s1) (results s1) (have s1) (shut s1) MAdd (sub s1)
-          else mkw (nt s) (np s) (nc s) (nr s) (nd s) (wake s) (results s) (have s) (shut s) MAdd (sub s)
+            then mkw (nt s1) (np s1) (nc s1) (nr s1) (nd s1) (wake s1) (results s1) (have s1) (shut s1) MExit (sub s1) (kill s1) (stale s1)
+            else mkw (nt s1) (np s1) (nc s1) (nr s1) (nd s1) (wake s1) (results s1) (have s1) (shut s1) MAdd (sub s1) (kill s1) (stale s1)
+          else mkw (nt s) (np s) (nc s) (nr s) (nd s) (wake s) (results s) (have s) (shut s) MAdd (sub s) (kill s) (stale s)
       | MExit => s
+      | MCrashed => s
       end
   end.
-Definition step := step_with manager_rechecks_work_ids_when_shutting_down wake_ops.
+Definition step := step_with manager_rechecks_work_ids_when_shutting_down forced_shutdown_forgets_the_waiting_work_ids wake_ops.
 Definition run (es : list ev) (s : ws) : ws := fold_left step es s.
 
 (* the manager sleeps, no submit() is in progress, and nothing inside the pool will ever wake it *)
